@@ -45,11 +45,10 @@ def rules(ctx):
         t = unwrap_newtypes(v.cx.local(0))
         good = is_call(t, name="H3")
         if good:
-            pre = t[2][0]
-            chains = [s for s in subterms(pre) if is_call(s, name="chain")]
-            good = (len(chains) == 1 and mentions(chains[0][2][0], lambda s: s == ("arg", 2)) and not mentions(chains[0][2][0], arg(1))
-                    and mentions(chains[0][2][1], lambda s: is_call(s, name="serialize") and mentions(s, arg(1)))
-                    and not mentions(chains[0][2][1], lambda s: s == ("arg", 2))
+            from ..seq import flatten
+            comps = flatten(t[2][0])
+            good = (len(comps) == 2 and comps[0] == ("arg", 2) and is_call(comps[1], name="serialize") and mentions(comps[1], arg(1))
+                    and not mentions(comps[1], lambda s: s == ("arg", 2))
                     and {k for k in adaptor_inventory(f) if k not in LOOKUPS} == set())
         ctx.check(good, "SEQ", f.key, "H3(random_bytes||encoded-share)",
                   "the nonce must be H3(random_bytes || SerializeScalar(share)) in that order: %s" % fmt(t)[:300], f.loc)
@@ -123,7 +122,13 @@ def rules(ctx):
         pp = [s for s in subterms(t) if is_call(s, name="preprocess")]
         good = bool(pp) and all(s[2][0] == ("const", "u8", 1) and s[2][1] == ("arg", 1) and s[2][2] == ("arg", 2) for s in pp) and \
             len({s[3] for s in pp}) == 1
-        ctx.check(good, "PROV", f.key, "commit==preprocess(1)", "commit must return the single pair of preprocess(1, secret, rng)", f.loc)
+        if not pp and t[0] == "agg" and t[1] == "tuple" and len(t[4]) == 2:
+            # written out: one iteration of preprocess without the vectors
+            n, c = t[4][0][1], t[4][1][1]
+            good = (mentions(n, lambda s: s[0] == "op" and s[1] == "fill_bytes" and s[2] == (("arg", 2),))
+                    and mentions(n, arg(1)) and get_field(n, "commitments") == c)
+        ctx.check(good, "PROV", f.key, "commit==preprocess(1)", "commit must return the single pair of preprocess(1, secret, rng) "
+                  "(or one fresh SigningNonces::new(secret, rng) with its own commitments)", f.loc)
 
 
 def linked_nonce(commitment, nonce):
